@@ -10,6 +10,8 @@ import (
 	"flag"
 	"fmt"
 	"os"
+	"runtime/debug"
+	"runtime/pprof"
 	"sync"
 
 	st "verif/harness/fam/storage"
@@ -27,7 +29,17 @@ func main() {
 	seed := flag.Int64("seed", 1, "seed of the concretisation")
 	tier := flag.String("tier", "quick", "quick | thorough (size of large manifests)")
 	workers := flag.Int("workers", 4, "parallel scenarios")
+	debug.SetGCPercent(400) // the drivers' gzip writers produce a lot of short-lived garbage
+	prof := flag.String("cpuprofile", "", "write a CPU profile (development)")
 	flag.Parse()
+	if *prof != "" {
+		pf, err := os.Create(*prof)
+		if err != nil {
+			die("%v", err)
+		}
+		pprof.StartCPUProfile(pf)
+		defer pprof.StopCPUProfile()
+	}
 	if *in == "" || *out == "" || *obsPath == "" {
 		die("usage: hv_storage -in seqs.ndjson -out trace.ndjson -obs obs.ndjson -seed N")
 	}
